@@ -17,6 +17,7 @@ THEOREMS = [
     "C11_exact_repaired",
     "C11_exact_partial",
     "C11_exact_witness",
+    "C11_failed_signal_witness",
     "C11_parent_emits_witness",
     "C11_restored",
     "C11_refused_unchanged",
@@ -341,6 +342,13 @@ def run_impl(case):
     stats["pulls_with_parents"] = sum(1 for r in recs if r["parents"])
     stats["max_closure"] = max([len(o[0]) for r in recs for o in r["obs"].values()] or [0])
     stats["leaf_executions"] = sum(len(r["exec"]) for r in recs)
+    stats["conn_list_order_changed_sets_equal"] = sum(
+        1 for r in recs if r["before"]["conns"] != r["after"]["conns"]
+        and all(set(r["before"]["conns"].get(c, [])) == set(r["after"]["conns"].get(c, []))
+                for c in set(r["before"]["conns"]) | set(r["after"]["conns"])))
+    for r in recs:
+        if r["parents"] and len(_levels(r["t"], True, world["parent"])) >= 3:
+            stats["pull_through_3_levels"] = stats.get("pull_through_3_levels", 0) + 1
     return {"obs": obs, "world": world, "recs": recs, "stats": stats,
             "fids": {str(g): case["fid"].get(str(g)) for g in sc.node}}
 
@@ -420,6 +428,7 @@ def model_input(case, impl):
         lines.append("fails " + " ".join(map(str, sorted(fl))))
     for g, v in sorted((int(g), v) for g, v in w["ifs"].items()):
         lines.append(f"truth {g} {int(v)}")
+    lines.extend(case.get("raw", []))  # malformed lines: the driver must refuse each with `bad-op`
     for r in impl["recs"]:
         for t, (order, chain) in sorted((int(t), oc) for t, oc in r["obs"].items()):
             lines.append(f"obs {t} " + " ".join(map(str, order)) + " / " + " ".join(map(str, chain)))
@@ -437,6 +446,9 @@ VARIANT_HITS: dict = {}
 
 
 def diff(case, impl, model):
+    refused = sum(1 for l in model if l.strip() == "bad-op")
+    if refused != len(case.get("raw", [])):
+        return {"index": -3, "impl": f"{len(case.get('raw', []))} malformed lines", "model": f"{refused} refused"}
     mine = [l.rstrip() for l in impl["obs"]]
     best = None
     ok_tags = set()
@@ -906,3 +918,155 @@ def nontrivial(case, impl):
         if rec["outcome"] in ("ok", "failed") and any(len(o[0]) >= 2 for o in rec["obs"].values()):
             return True
     return False
+
+
+# ----------------------------------------------------------------------------- corpus, shrinking
+
+
+def _term(g, f=None):
+    return {"gid": g, "kind": "term", "fid": g if f is None else f}
+
+
+def _mk(top, level, n, *, post=None, fails=(), execs=(), foreign=(), pulls=(), raw=()):
+    """a hand-written case: gids 0..n-1 are used by the description (the workflow, if any, is n-1)"""
+    fid = {}
+
+    def walk(spec):
+        for nd in spec["nodes"]:
+            if nd["kind"] == "term":
+                fid[str(nd["gid"])] = nd["fid"]
+            elif nd["kind"] == "macro":
+                walk(nd["inner"])
+
+    walk(level)
+    for f in foreign:
+        fid[str(f["gid"])] = f["fid"]
+    p = {"dagwire": [], "late_edges": [], "signals": [], "starting": {}, "automate": {}}
+    p.update(post or {})
+    c = {"top": top, "level": level, "fid": fid, "fails": list(fails), "exec": list(execs),
+         "foreign": list(foreign), "post": p, "ngid": n, "pulls": [list(x) for x in pulls]}
+    if top == "wf":
+        c["wfgid"] = n - 1
+    if raw:
+        c["raw"] = list(raw)
+    return c
+
+
+def corpus():
+    # P17: `If` upstream of the target, its `true` signal wired to a bystander (known finding if-branch)
+    yield _mk("none", {"nodes": [{"gid": 0, "kind": "if", "truth": True}, _term(1), _term(2)],
+                       "edges": [[1, "a", 0]]}, 3,
+              post={"signals": [["sig", 0, "true", 2, "run"]]}, pulls=[[1, 0]])
+    # a failing upstream node whose `failed` signal starts a handler outside the closure
+    yield _mk("none", {"nodes": [_term(0), _term(1), _term(2)], "edges": [[1, "a", 0]]}, 3,
+              post={"signals": [["sig", 0, "failed", 2, "run"]]}, fails=[0], pulls=[[1, 0]])
+    # macro inside a DAG-wired workflow; pulling a child of the macro makes the macro emit `ran`
+    yield _mk("wf", {"nodes": [{"gid": 3, "kind": "macro", "inner": {"nodes": [_term(0), _term(1)],
+                                                                     "edges": [[1, "a", 0]], "xin": [], "out": 1}},
+                               _term(2)], "edges": [[2, "a", 3]]}, 5,
+              post={"dagwire": [4]}, pulls=[[1, 0]])
+    # failing upstream node under a workflow: automate_execution stays False
+    yield _mk("wf", {"nodes": [_term(0), _term(1)], "edges": [[1, "a", 0]]}, 3, fails=[0], pulls=[[1, 0]])
+    # P18: a >> c, a >> d, a >> b: the order inside a.ran's list is reversed by the pull, the sets are equal
+    yield _mk("none", {"nodes": [_term(0), _term(1), _term(2), _term(3)], "edges": [[1, "a", 0]]}, 4,
+              post={"signals": [["rr", 0, 2], ["rr", 0, 3], ["rr", 0, 1]]}, pulls=[[1, 0], [1, 0]])
+    # P25: five children of a workflow, hand-made signals, failing upstream node
+    yield _mk("wf", {"nodes": [_term(0), _term(1), _term(2), _term(3), _term(4)],
+                     "edges": [[1, "a", 0], [2, "a", 1], [2, "b", 0], [3, "a", 2], [4, "a", 0]]}, 6,
+              post={"signals": [["rr", 0, 4], ["acc", 3, [1, 4]]], "starting": {"5": [0]}}, fails=[1],
+              pulls=[[2, 0]])
+    yield _mk("wf", {"nodes": [_term(0), _term(1), _term(2), _term(3), _term(4)],
+                     "edges": [[1, "a", 0], [2, "a", 1], [2, "b", 0], [3, "a", 2], [4, "a", 0]]}, 6,
+              post={"signals": [["rr", 0, 4], ["acc", 3, [1, 4]]], "starting": {"5": [0]}, "dagwire": [5]},
+              pulls=[[2, 0], [3, 1]])
+    # refusals: cyclic data, executor upstream, data from another scope
+    yield _mk("none", {"nodes": [_term(0), _term(1), _term(2)], "edges": [[1, "a", 0], [2, "a", 1]]}, 3,
+              post={"late_edges": [[0, "b", 1]], "signals": [["rr", 2, 0]]}, pulls=[[2, 0]])
+    yield _mk("wf", {"nodes": [_term(0), _term(1)], "edges": [[1, "a", 0]]}, 3, execs=[0],
+              post={"signals": [["rr", 1, 0]]}, pulls=[[1, 1]])
+    yield _mk("wf", {"nodes": [_term(0), _term(1)], "edges": [[1, "a", 0]]}, 4,
+              foreign=[{"gid": 2, "fid": 2}], post={"late_edges": [[0, "b", 2]]}, pulls=[[1, 0]])
+    # three levels, with and without the parent scopes, malformed lines in the model stream
+    deep = {"nodes": [_term(5), {"gid": 4, "kind": "macro", "inner": {
+        "nodes": [_term(2), {"gid": 3, "kind": "macro", "inner": {
+            "nodes": [_term(0), _term(1)], "edges": [[1, "a", 0]], "xin": [[0, "a"]], "out": 1}}],
+        "edges": [[3, "x", 2]], "xin": [[2, "b"]], "out": 3}}], "edges": [[4, "x", 5]]}
+    yield _mk("wf", deep, 7, pulls=[[1, 1]],
+              raw=["pull 1", "node 99 - leaf 0", "conns 1 x", "frobnicate", "obs 1 0 1", "truth 0 7"])
+    yield _mk("wf", deep, 7, pulls=[[1, 0], [1, 1]])
+    yield _mk("none", deep, 6, pulls=[[1, 1]])
+
+
+def _drop_node(spec, gid):
+    """the level description without leaf `gid` (None if it cannot go)"""
+    out = dict(spec)
+    if any(n["gid"] == gid for n in spec["nodes"]):
+        if spec.get("out") == gid:
+            return None
+        out["nodes"] = [n for n in spec["nodes"] if n["gid"] != gid]
+        out["edges"] = [e for e in spec["edges"] if e[0] != gid and e[2] != gid]
+        if "xin" in spec:
+            out["xin"] = [x for x in spec["xin"] if x[0] != gid]
+        return out
+    nodes, changed = [], False
+    for n in spec["nodes"]:
+        if n["kind"] == "macro":
+            inner = _drop_node(n["inner"], gid)
+            if inner is None:
+                return None
+            if inner is not n["inner"]:
+                n = {**n, "inner": inner}
+                changed = True
+        nodes.append(n)
+    if not changed:
+        return spec
+    out["nodes"] = nodes
+    return out
+
+
+def _mentions(post, gid):
+    for s in post["signals"]:
+        flat = json.dumps(s[1:])
+        if any(x == gid for x in json.loads(flat) if isinstance(x, int)) or (
+                s[0] == "acc" and gid in s[2]):
+            return True
+    return any(gid in v or str(gid) == k for k, v in post["starting"].items()) or any(
+        gid in e[:1] + e[2:] for e in post["late_edges"]) or gid in post["dagwire"]
+
+
+def shrink_candidates(case):
+    c = json.loads(json.dumps(case))
+    c.pop("_meta", None)
+    post = c["post"]
+    if len(c["pulls"]) > 1:
+        yield {**c, "pulls": c["pulls"][:1]}
+        yield {**c, "pulls": c["pulls"][1:]}
+    if c.get("raw"):
+        yield {**c, "raw": []}
+    for key in ("signals", "dagwire", "late_edges"):
+        for i in range(len(post[key])):
+            yield {**c, "post": {**post, key: post[key][:i] + post[key][i + 1:]}}
+    for key in ("starting", "automate"):
+        for k in list(post[key]):
+            yield {**c, "post": {**post, key: {a: b for a, b in post[key].items() if a != k}}}
+    for i in range(len(c["fails"])):
+        yield {**c, "fails": c["fails"][:i] + c["fails"][i + 1:]}
+    targets = {p[0] for p in c["pulls"]}
+    # leaves nobody mentions
+    for _owner, spec in spec_levels(c):
+        for n in spec["nodes"]:
+            g = n["gid"]
+            if n["kind"] == "macro" or g in targets or g in c["fails"] or g in c["exec"] or _mentions(post, g):
+                continue
+            lv = _drop_node(c["level"], g)
+            if lv is not None and lv is not c["level"]:
+                yield {**c, "level": lv}
+    # single data edges
+    def edge_variants(spec):
+        for i in range(len(spec["edges"])):
+            yield {**spec, "edges": spec["edges"][:i] + spec["edges"][i + 1:]}
+        for k, n in enumerate(spec["nodes"]):
+            if n["kind"] == "macro":
+                for inner in edge_variants(n["inner"]):
+                    yield {**spec, "nodes": spec["nodes"][:k] + [{**n, "inner": inner}] + spec["nodes"][k + 1:]}
+    yield from ({**c, "level": lv} for lv in edge_variants(c["level"]))
